@@ -26,13 +26,15 @@ Definition show_ev (e : ev) : string :=
   | EDisconnect c => "X" ++ show_N c
   end.
 
-(** case = ((bs, ms), (dec transcript, verify table, decomp transcript), sender items (z, padding), chunks) *)
+(** [bs] = block size of the cipher of the direction under test (the sender's encBlockSize = the receiver's
+    decBlockSize), [sdec] = the sender's OWN incoming block size (must not influence anything).
+    case = ((bs, ms, sdec), (dec transcript, verify table, decomp transcript), sender items (z, padding), chunks) *)
 Definition run_show
-  (c : (N * N) * (list bytes * list (N * bytes * bytes) * list (option bytes)) * list (bytes * bytes) * list bytes)
+  (c : (N * N * N) * (list bytes * list (N * bytes * bytes) * list (option bytes)) * list (bytes * bytes) * list bytes)
   : string :=
-  let '((bs, ms), (dt, vt, zt), items, chunks) := c in
+  let '((bs, ms, sdec), (dt, vt, zt), items, chunks) := c in
   let frames := map (fun kit => "S" ++ show_hex (frame (fst (snd kit)) (snd (snd kit))) ++ ":"
-                                ++ show_N (pad_len bs (len (fst (snd kit)))) ++ ":" ++ show_nat (fst kit))
+                                ++ show_N (send_pad (mkcip bs sdec) (len (fst (snd kit)))) ++ ":" ++ show_nat (fst kit))
                     (combine (List.seq 0 (List.length items)) items) in
   let '(evs, s) := feed_all (list bytes) (list (option bytes)) dec_t (verify_t vt) decomp_t bs ms
                             (cinit (list bytes) (list (option bytes)) dt zt) chunks in
@@ -46,6 +48,6 @@ Definition show_side (ops : list kop) : string :=
 Definition run_rekey (c : list kop * list kop) : string :=
   "c>" ++ show_side (fst c) ++ " s>" ++ show_side (snd c).
 
-Definition run_any (c : ((N * N) * (list bytes * list (N * bytes * bytes) * list (option bytes)) * list (bytes * bytes) * list bytes)
+Definition run_any (c : ((N * N * N) * (list bytes * list (N * bytes * bytes) * list (option bytes)) * list (bytes * bytes) * list bytes)
                         + (list kop * list kop)) : string :=
   match c with inl a => run_show a | inr b => run_rekey b end.
